@@ -75,9 +75,17 @@ impl Ck {
                 }
                 Ok(())
             }
-            C::IfTrue(cond, body) | C::IfFalse(cond, body) | C::While(cond, body) => {
+            C::IfTrue(cond, body) | C::IfFalse(cond, body) => {
                 self.value(cond)?;
                 self.card(body, false)
+            }
+            C::While(cond, body) => {
+                // a loop body: new locals may be introduced, they live for one iteration
+                self.value(cond)?;
+                self.funs.last_mut().unwrap().scopes.push(vec![]);
+                let r = self.card(body, true);
+                self.funs.last_mut().unwrap().scopes.pop();
+                r
             }
             C::IfElse(cond, t, e) => {
                 self.value(cond)?;
